@@ -521,14 +521,14 @@ int-hashed port sets (trusted CPython fact); the cycle check is discharged by C1
 theorem C03_set_iterations_by_lemma :
     ((table.filter fun e => e.1.kind == .setIter && (e.2.basis == .lemma || e.2.basis == .mechanical)).length,
      (table.filter fun e => e.1.kind == .setIter && e.2.basis == .trusted).map (·.2)) =
-    (9, [.setIntHash, .setIntHash]) := by decide
+    (11, [.setIntHash, .setIntHash]) := by decide
 
-/-- How the 70 discharges split: by lemma / by a mechanical Gen fact + kind lemma / mechanical fact + trusted runtime fact /
+/-- How the 74 discharges split: by lemma / by a mechanical Gen fact + kind lemma / mechanical fact + trusted runtime fact /
 attributed to the open finding. (Before this round: 30 by lemma, 28 by reading, 4 open finding.) -/
 theorem C03_discharge_counts :
     (table.length, (table.filter fun e => e.2.basis == .lemma).length, (table.filter fun e => e.2.basis == .mechanical).length,
      (table.filter fun e => e.2.basis == .trusted).length, (table.filter fun e => e.2.basis == .openFinding).length) =
-    (70, 17, 46, 7, 0) := by
+    (74, 15, 52, 7, 0) := by
   decide
 
 set_option maxRecDepth 100000 in
